@@ -94,6 +94,8 @@ func (s *shardAssignmentDispatcher) RegisterForUpdates(req *proto.ShardAssignmen
 
 	assignmentsInterceptorFunc, err := s.assignmentsInterceptorFunc(clientStream)
 	if err != nil {
+		delete(s.clients, clientId)
+		s.Unlock()
 		return err
 	}
 	s.Unlock()
